@@ -18,7 +18,7 @@ Definition ex_QI (m j : nat) : Qc := if Nat.leb j m then exK1 else exK0.
 Definition ex_Q (m j : nat) : Qc := Q2Qc (1 # 2).
 Definition ex_nodes (m : nat) : Qc := Q2Qc (Z.of_nat m # 2).
 Definition ex_level (M pre post : nat) : @level Qc unit :=
-  {| lM := M; ldt := exK1; lnodes := ex_nodes; lQ := ex_Q; lQI := ex_QI; lfeval := ex_feval; lsolve := ex_solve;
+  {| lM := M; ldt := exK1; lnodes := ex_nodes; lQ := ex_Q; lQI := ex_QI; lQE := fun _ _ => exK0; lfeval := ex_feval; lsolve := ex_solve;
      lpre := pre; lpost := post |}.
 Definition ex_xfer (fin : bool) : @xfer Qc unit :=
   {| xRs := fun v => v; xPs := fun v => v; xRcoll := fun n m => if Nat.eqb m n then exK1 else exK0;
@@ -27,7 +27,7 @@ Definition ex_xfer (fin : bool) : @xfer Qc unit :=
 Definition ex_fine := ex_level 2 0 2.
 Definition ex_rest := [(ex_xfer false, ex_level 2 1 1); (ex_xfer true, ex_level 1 1 0)].
 
-Notation LOK := (level_ok exK0 Qcmult Qcminus ex_eqb).
+Notation LOK := (level_ok exK0 Qcmult Qcminus ex_eqb false).
 
 Lemma ex_level_ok (M pre post : nat) : LOK (ex_level M pre post).
 Proof.
@@ -59,7 +59,7 @@ Proof.
     rewrite G. replace (Nat.leb n Mf) with true by (symmetry; apply Nat.leb_le; lia). reflexivity.
 Qed.
 
-Example ex_hier_ok : hier_ok exK0 exK1 Qcplus Qcmult Qcminus ex_eqb ex_fine ex_rest.
+Example ex_hier_ok : hier_ok exK0 exK1 Qcplus Qcmult Qcminus ex_eqb false ex_fine ex_rest.
 Proof.
   unfold ex_fine, ex_rest. cbn [hier_ok].
   split; [apply ex_level_ok|]. split; [apply ex_xfer_ok; lia|]. split; [apply ex_level_ok|].
@@ -73,11 +73,12 @@ Definition ex_state : @lstate Qc unit :=
               else ex_u0 + exK1 * sumf exK0 Qcplus (fun j => ex_Q m j * tnode Qcplus Qcmult exK1 exK0 ex_nodes j) 1 2,
    fun m _ _ => tnode Qcplus Qcmult exK1 exK0 ex_nodes m).
 
-Example ex_holds : holds_solution exK0 Qcplus Qcmult exK0 ex_fine (fun _ => None) ex_state.
+Example ex_holds : holds_solution exK0 Qcplus Qcmult Qcminus exK0 false ex_fine (fun _ => None) ex_state.
 Proof.
   unfold holds_solution, ex_fine, ex_state; cbn [fst snd lM ldt lnodes lfeval lQ ex_level]. split; [|split].
   - intros m Hm p x. reflexivity.
-  - intros m Hm. unfold collocation1 in *. intros x.
+  - intros m Hm x. cbn [fst snd lM ldt lQ ex_level nparts].
+    apply (proj2 (residual_zero_iff_collocation exK0 exK1 Qcplus Qcmult Qcminus Qcopp Qcrt 2 exK1 ex_Q _ _ (fun _ => None) m x)).
     replace (Nat.eqb m 0) with false by (symmetry; apply Nat.eqb_neq; lia). cbn [Nat.eqb]. unfold tauval. unfold exK0, exK1. ring.
   - intros m Hm. split; intros; reflexivity.
 Qed.
@@ -85,8 +86,8 @@ Qed.
 (* the theorem applies: the (nontrivial: 2 + 1 + 1 + 1 + 2 sweeps, two restrictions, two prolongations) cycle
    returns the same fine state *)
 Example ex_cycle_fixed :
-  same ex_fine (vcycle exK0 Qcplus Qcmult Qcminus ex_eqb exK0 ex_fine ex_rest (fun _ => None) ex_state) ex_state.
+  same ex_fine (vcycle exK0 Qcplus Qcmult Qcminus ex_eqb exK0 false ex_fine ex_rest (fun _ => None) ex_state) ex_state.
 Proof.
-  exact (vcycle_fixed_point exK0 exK1 Qcplus Qcmult Qcminus Qcopp ex_eqb Qcrt ex_eqb_true exK0 ex_rest ex_fine (fun _ => None) ex_state
+  exact (vcycle_fixed_point exK0 exK1 Qcplus Qcmult Qcminus Qcopp ex_eqb Qcrt ex_eqb_true exK0 false ex_rest ex_fine (fun _ => None) ex_state
            ex_hier_ok ex_holds).
 Qed.
